@@ -104,9 +104,8 @@ impl Records {
             match converter.from_utf8(fields) {
                 Some(data_bytes) => {
                     if data_bytes.len() > self.record_len {
-                        log::warn!("record {} is too long and will corrupt other records",rec_num);
-                        //log::warn!("truncating record {} to maximum {}",rec_num,self.record_len);
-                        //data_bytes = data_bytes[0..self.record_len].to_vec();
+                        log::error!("record {} is too long, it would overwrite the next record",rec_num);
+                        return Err(Box::new(Error::FileFormat));
                     }
                     let mut chunk = self.record_len * rec_num / chunk_len;
                     let mut offset = self.record_len * rec_num % chunk_len;
